@@ -310,6 +310,32 @@ pub fn payload_strategy() -> BoxedStrategy<Payload> {
         .boxed()
 }
 
+/// The canonical form the strategy produces (distinct clients in descending order without a
+/// leading Skip, delete set clients distinct and ascending); applied again by the check so that a
+/// case mutated by the coverage-guided campaign is still a payload the byte-equality oracle applies to.
+pub fn canonical(p: &Payload) -> Payload {
+    let eff = |c: u8| CLIENTS[c as usize % CLIENTS.len()];
+    let mut seen = std::collections::BTreeSet::new();
+    let mut cs: Vec<PClient> = Vec::new();
+    for c in p.clients.iter() {
+        if !seen.insert(eff(c.client)) {
+            continue;
+        }
+        let mut c = c.clone();
+        while matches!(c.blocks.first(), Some(PBlock::Skip(_))) {
+            c.blocks.remove(0);
+        }
+        if !c.blocks.is_empty() {
+            cs.push(c);
+        }
+    }
+    cs.sort_by(|a, b| eff(b.client).cmp(&eff(a.client)));
+    let mut seen = std::collections::BTreeSet::new();
+    let mut ds: Vec<(u8, Vec<(u8, u8)>)> = p.ds.iter().filter(|(c, r)| !r.is_empty() && seen.insert(eff(*c))).cloned().collect();
+    ds.sort_by(|a, b| eff(a.0).cmp(&eff(b.0)));
+    Payload { clients: cs, ds }
+}
+
 pub struct Builder;
 
 fn content_tag(c: &PContent) -> &'static str {
@@ -338,6 +364,7 @@ impl Prop for Builder {
         payload_strategy()
     }
     fn check(&self, p: &Payload, st: &mut CaseStats) -> Result<(), Fail> {
+        let p = &canonical(p);
         let (bytes, desc) = build(p);
         // which content kinds are present (for signatures: one root cause per content kind)
         let mut kinds: Vec<&'static str> = Vec::new();
